@@ -82,7 +82,7 @@ def scenarios():
     add('S1 athlon score||score first-call', [], [_call(sc, 'M', '100', 10.5), _call(sc, 'F', 'HJ', 1.8)])
     add('S1 athlon score||score same args first-call', [], [_call(sc, 'M', '100', 10.5), _call(sc, 'M', '100', 10.5)], bound=(1, 2))
     add('S1 athlon score||performance first-call', [], [_call(sc, 'F', 'WT', 15.0), _call(pf, 'M', '60', 900)], bound=(1, 2))
-    add('S1 athlon score||score warmed-up', [_call(sc, 'M', '100', 11)], [_call(sc, 'M', '100', 10.5), _call(sc, 'F', 'HJ', 1.8)])
+    add('S1 athlon score||score warmed-up', [_call(sc, 'M', '100', 11)], [_call(sc, 'M', '100', 10.5), _call(sc, 'F', 'HJ', 1.8)], bound=(2, 3))
     add('S1 athlon score with age || score first-call', [], [_call(sc, 'M', '100', 12.5, 50), _call(sc, 'F', 'LJ', 4.5, 60)], bound=(1, 2))
     add('S1 athlon three threads first-call', [], [_call(sc, 'M', '100', 10.5), _call(pf, 'F', 'HJ', 1000), _call(sc, 'F', '800', 130.0)],
         bound=(1, 2))
@@ -91,13 +91,13 @@ def scenarios():
     add('S1 athlon ESAA 800||ESAA 800 first ESAA use, table warmed-up', [_call(sc, 'M', '100', 11)],
         [_call(sc, 'M', '800', 120.0, None, True), _call(sc, 'M', '800', 130.0, None, True)], bound=(2, 2))
     add('S1 athlon ESAA 800||plain 800 first-call', [], [_call(sc, 'M', '800', 120.0, None, True), _call(sc, 'M', '800', 120.0)], bound=(1, 2))
-    add('S1 athlon ESAA 800||plain 800 warmed-up', [_call(sc, 'M', '100', 11)], [_call(sc, 'M', '800', 120.0, None, True), _call(sc, 'M', '800', 120.0)], bound=(2, 2))
+    add('S1 athlon ESAA 800||plain 800 warmed-up', [_call(sc, 'M', '100', 11)], [_call(sc, 'M', '800', 120.0, None, True), _call(sc, 'M', '800', 120.0)], bound=(2, 3))
     add('S1 athlon ESAA 800||performance 800 warmed-up', [_call(sc, 'M', '100', 11)], [_call(sc, 'M', '800', 120.0, None, True), _call(pf, 'M', '800', 800)], bound=(2, 2))
     add('S1 athlon alias 80H||110H warmed-up', [_call(sc, 'M', '100', 11)], [_call(sc, 'M', '80H', 13.5, 60), _call(sc, 'M', '110H', 14.5)], bound=(1, 2))
     # S2 Hungarian
     add('S2 hungarian score||score first-call', [], [_call(hs, 'M', 'OUT', '100', 10.5), _call(hs, 'F', 'OUT', 'LJ', 6.5)], bound=(1, 2))
     add('S2 hungarian score||score warmed-up', [_call(hs, 'M', 'OUT', '200', 21)],
-        [_call(hs, 'M', 'OUT', '100', 10.5), _call(hs, 'F', 'OUT', 'LJ', 6.5)])
+        [_call(hs, 'M', 'OUT', '100', 10.5), _call(hs, 'F', 'OUT', 'LJ', 6.5)], bound=(2, 3))
     add('S2 hungarian M || mixed gender X first-call', [], [_call(hs, 'M', 'OUT', '100', 10.5), _call(hs, 'X', 'OUT', 'LJ', 7.5)], bound=(1, 2))
     add('S2 hungarian X || X warmed-up', [_call(hs, 'M', 'OUT', '200', 21)], [_call(hs, 'X', 'OUT', '100', 10.5), _call(hs, 'X', 'IN', '60', 7.0)], bound=(1, 2))
     # S3 Sportshall
@@ -152,7 +152,7 @@ def scenarios():
     sv, va = U().schema_valid, U().valid_against_schema
     for n in (19, 20):
         add('S5 schema_valid||schema_valid distinct keys, cache at %d' % n, [lambda n=n: fill_schema_cache(n)],
-            [_call(sv, 'json/athlete.json', D4), _call(sv, 'json/event.json', D4)])
+            [_call(sv, 'json/athlete.json', D4), _call(sv, 'json/event.json', D4)], bound=(2, 3))
         add('S5 valid_against_schema||valid_against_schema distinct keys, cache at %d' % n, [lambda n=n: fill_doc_cache(n)],
             [_call(va, 'sample-jsons/athlete.json', 'json/athlete.json'), _call(va, 'sample-jsons/event.json', 'json/event.json')], bound=(1, 2))
     # two first validations against schemas that refer to other schema files (the resolver is involved), caches empty
@@ -162,12 +162,12 @@ def scenarios():
         [_call(va, 'sample-jsons/athlete.json', 'json/athlete.json'), _call(va, 'sample-jsons/event.json', 'json/event.json')], bound=(2, 2))
     # a cache hit racing with an insertion that evicts exactly that (most recent) entry
     add('S5 schema_valid hit||evicting insert, cache at 20', [lambda: fill_schema_cache(19), _call(sv, 'json/athlete.json', D4)],
-        [_call(sv, 'json/athlete.json', D4), _call(sv, 'json/event.json', D4)])
+        [_call(sv, 'json/athlete.json', D4), _call(sv, 'json/event.json', D4)], bound=(2, 3))
     add('S5 valid_against_schema hit||evicting insert, cache at 20',
         [lambda: fill_doc_cache(19), _call(va, 'sample-jsons/athlete.json', 'json/athlete.json')],
         [_call(va, 'sample-jsons/athlete.json', 'json/athlete.json'), _call(va, 'sample-jsons/event.json', 'json/event.json')], bound=(1, 2))
     add('S5 schema_valid||schema_valid equal keys, cache at 20', [lambda: fill_schema_cache(20)],
-        [_call(sv, 'json/athlete.json', D4), _call(sv, 'json/athlete.json', D4)])
+        [_call(sv, 'json/athlete.json', D4), _call(sv, 'json/athlete.json', D4)], bound=(2, 3))
     add('S5 schema_valid x3, cache at 19', [lambda: fill_schema_cache(19)],
         [_call(sv, 'json/athlete.json', D4), _call(sv, 'json/event.json', D4), _call(sv, 'json/race.json', D4)], tiers=('thorough',), bound=(1, 2))
     # S7 the warmed-up and cache scenarios once more with a scheduling point before every BYTECODE instruction executed inside athlib (a switch
